@@ -363,6 +363,60 @@ func checkC18(c *Ctx, r *Report) {
 		if n < 2 {
 			r2.Fail("background: timer sites", f.Pos(), "expected the initial Timer and the Reset after each roll", "")
 		}
+		// the roll-over timer is one-shot: whenever it has fired, it is re-armed before the loop waits again —
+		// also when rollConfig failed (otherwise one failed roll-over ends certificate rotation for good)
+		for _, g := range fs {
+			var sel *ssa.Select
+			allInstrs(g, func(in ssa.Instruction) {
+				if x, ok := in.(*ssa.Select); ok && x.Blocking {
+					for _, st := range x.States {
+						if fl, _ := loadOfField(strip2(st.Chan)); fl != nil && fl.Name() == "C" && st.Send == nil {
+							sel = x
+						}
+					}
+				}
+			})
+			if sel == nil {
+				continue
+			}
+			k := -1
+			for i, st := range sel.States {
+				if fl, _ := loadOfField(strip2(st.Chan)); fl != nil && fl.Name() == "C" && st.Send == nil {
+					k = i
+				}
+			}
+			var fired []CFGEdge
+			for _, b := range g.Blocks {
+				i := ifOf(b)
+				if i == nil {
+					continue
+				}
+				bo, ok := i.Cond.(*ssa.BinOp)
+				if !ok || bo.Op != token.EQL {
+					continue
+				}
+				ex, ok := bo.X.(*ssa.Extract)
+				if !ok || ex.Tuple != ssa.Value(sel) || ex.Index != 0 {
+					continue
+				}
+				if kk, isC := constInt(bo.Y); isC && int(kk) == k {
+					fired = append(fired, CFGEdge{b, 0})
+				}
+			}
+			resets := findInstrs(g, callPred("(*github.com/benbjohnson/clock.Timer).Reset"))
+			if len(fired) == 0 {
+				// the last case of a select needs no test: it is the fall-through of the others
+				r2.OK(fnKey(g)+": timer case is the select's last arm", g.Pos(), 1, "re-arming checked from the select itself")
+				continue
+			}
+			q := &Cut{Fn: g, FromEdges: fired, Sep: inSet(resets), Target: func(in ssa.Instruction) bool {
+				if _, isRet := in.(*ssa.Return); isRet {
+					return false // leaving the loop ends the manager
+				}
+				return in == ssa.Instruction(sel)
+			}}
+			r2.mustPass(g, fnKey(g)+": a fired roll-over timer is re-armed before the loop waits again", q, len(fired))
+		}
 	}
 	if f := r2.need(initK); f != nil {
 		// first certificate: bucket start of (now - skew), lasting certValidity; then rollConfig
@@ -463,12 +517,22 @@ func checkC18(c *Ctx, r *Report) {
 		for _, st := range vpcs {
 			if mc, ok := strip2(st.(*ssa.Store).Val).(*ssa.MakeClosure); ok {
 				cb := mc.Fn.(*ssa.Function)
-				for _, call := range callsIn(cb, vrK) {
-					if isParamVar(c, call.Common().Args[0], "rawCerts") && isParamVar(c, call.Common().Args[1], "certHashes") {
-						// and its result is returned
-						for _, ret := range returnsOf(cb) {
-							okCB = isResultOfCall(retVal(ret, 0), 0, vrK) != nil
-						}
+				// every answer that can be "accept" is verifyRawCerts(rawCerts, certHashes)'s own answer (returned as it
+				// is, or nil past its nil edge): no other verdict — a wrapped user callback — can accept on its own
+				pinned := func(v ssa.Value) bool {
+					ci := isResultOfCall(v, 0, vrK)
+					return ci != nil && isParamVar(c, ci.Common().Args[0], "rawCerts") && (isParamVar(c, ci.Common().Args[1], "certHashes") || isFreeVarOrParam(strip2(ci.Common().Args[1]), "certHashes") || derivesFrom(ci.Common().Args[1], func(x ssa.Value) bool { return isParamVar(c, x, "certHashes") }))
+				}
+				rets := successReturns(cb)
+				okCB = len(rets) > 0 && len(callsIn(cb, vrK)) > 0
+				for _, ret := range rets {
+					v := retVal(ret.(*ssa.Return), 0)
+					if pinned(v) {
+						continue
+					}
+					w, _ := (&Cut{Fn: cb, Target: isInstr(ret), EdgeCut: anyEdge(edgeNil(pinned, true), failCut(ret))}).Run(c)
+					if w != "" {
+						okCB = false
 					}
 				}
 			}
@@ -476,7 +540,13 @@ func checkC18(c *Ctx, r *Report) {
 		r5.Check(len(skips) == 0 || okCB, "dial: VerifyPeerCertificate = verifyRawCerts(rawCerts, certHashes)", f.Pos(), 2, "", "certificate verification is disabled without pinning", "")
 		for _, sk := range skips {
 			// every path past InsecureSkipVerify=true to the QUIC dial passes the callback store
+			// (the callback may be installed before or after the flag: a path is bad when neither half of it installs it)
 			w, n := (&Cut{Fn: f, From: []ssa.Instruction{sk}, Target: callPred("(*p2p/transport/quicreuse.ConnManager).DialQUIC"), Sep: inSet(vpcs)}).Run(c)
+			if w != "" {
+				if w0, n0 := (&Cut{Fn: f, Target: isInstr(sk), Sep: inSet(vpcs)}).Run(c); w0 == "" {
+					w, n = "", n+n0
+				}
+			}
 			r5.Check(w == "" && len(vpcs) > 0, "dial: InsecureSkipVerify=true only together with the callback", instrPos(sk), n+1, "", "", w)
 		}
 		// without hashes verification is NOT skipped (the stores are under len(certHashes) > 0) - and the caller refuses zero hashes anyway
